@@ -30,6 +30,8 @@ import QlibcModel.Props.C17
 import QlibcModel.Props.C18
 import QlibcModel.Props.C19
 import QlibcModel.Tree.FaultSpec
+import QlibcModel.Props.C11Seq
+import QlibcModel.Props.C11Map
 
 namespace Qlibc.Props.C11
 open Qlibc Qlibc.Tree Qlibc.Tree.T
